@@ -413,8 +413,8 @@ impl Property for C04 {
     fn assumptions(&self) -> Vec<&'static str> {
         vec!["scripts are virtual processes that terminate when the scheduler fires their exit event", "stall detection is exact because the simulated process has a single thread"]
     }
-    fn generate(&self, rng: &mut Rng, _case: u64) -> Scenario {
-        let mut sc = gen::gen_graph(rng, &GraphOpts { big_permille: 40, ..Default::default() });
+    fn generate(&self, rng: &mut Rng, case_no: u64) -> Scenario {
+        let mut sc = gen::gen_graph(rng, &GraphOpts { big_permille: 30, force_wide: case_no % 100 == 17, ..Default::default() });
         let args = gen::gen_request(rng, &sc);
         let inv = standard_invocation(rng, &sc, args);
         sc.steps.push(Step::Invoke(inv));
